@@ -238,6 +238,20 @@ func runE5Row(p *Program, sp *Spec, c *Collector, r *E5Row) bool {
 	}
 	sf := newSymFn(p, fn, 0)
 	sf.inlineOK = r.noInline(p)
+	// a callback that only hands its node on to a helper (two grammar rules sharing one handler): the row is decided in the
+	// helper, with the helper's parameters replaced by what the callback passes
+	var wrapSubst map[string]*Sym
+	if r.Kind == "callarg" || r.Kind == "callguard" {
+		if h, args := thinWrapperTarget(p, fn); h != nil {
+			wrapSubst = map[string]*Sym{}
+			for i, a := range args {
+				wrapSubst[fmt.Sprintf("p%d", i)] = sf.val(a)
+			}
+			fn = h
+			sf = newSymFn(p, fn, 0)
+			sf.inlineOK = r.noInline(p)
+		}
+	}
 	pos := p.FuncPos(fn)
 	parse := func(src string, extra ...string) (*Sym, error) {
 		return parseSpecExpr(src, append(append([]string{}, r.Params...), extra...), nil)
@@ -651,6 +665,10 @@ func runE5Row(p *Program, sp *Spec, c *Collector, r *E5Row) bool {
 				}
 			}
 		}
+		if wrapSubst != nil {
+			// binders first (they are named after the helper's loops), then the helper's parameters
+			got = got.subst(wrapSubstOnlyParams(wrapSubst, subst))
+		}
 		got = got.subst(subst)
 		return e5Compare(c, r, key, p.InstrPos(site), got, want, hint, r.What)
 	}
@@ -950,4 +968,58 @@ func elementsAssignedInPlace(v ssa.Value) ssa.Instruction {
 		}
 	}
 	return nil
+}
+
+// thinWrapperTarget: fn does nothing but call one own, non-callback helper (its other instructions only compute the
+// arguments from fn's own parameters through tree accessors) — returns the helper and the argument values.
+func thinWrapperTarget(p *Program, fn *ssa.Function) (*ssa.Function, []ssa.Value) {
+	if len(fn.Blocks) != 1 {
+		return nil, nil
+	}
+	var target *ssa.Call
+	for _, in := range fn.Blocks[0].Instrs {
+		switch x := in.(type) {
+		case *ssa.Call:
+			callee := x.Call.StaticCallee()
+			if callee != nil && p.IsOwnFunc(callee) {
+				if _, _, isCb := callbackRule(callee.Name()); isCb && callee.Signature.Recv() != nil {
+					return nil, nil
+				}
+				if target != nil {
+					return nil, nil
+				}
+				target = x
+				continue
+			}
+			// accessor calls on the node (invoke or generated methods) are argument computations
+			if !x.Call.IsInvoke() && (callee == nil || !isTreePkg2(callee)) {
+				return nil, nil
+			}
+		case *ssa.Return, *ssa.DebugRef, *ssa.MakeInterface, *ssa.ChangeInterface, *ssa.ChangeType, *ssa.FieldAddr, *ssa.UnOp:
+		default:
+			return nil, nil
+		}
+	}
+	if target == nil {
+		return nil, nil
+	}
+	return target.Call.StaticCallee(), target.Call.Args
+}
+
+func isTreePkg2(f *ssa.Function) bool {
+	if f.Signature.Recv() == nil {
+		return false
+	}
+	return isTreePkg(f)
+}
+
+// wrapSubstOnlyParams: the wrapper substitution, except for names the row's own substitution binds (loop binders).
+func wrapSubstOnlyParams(wrap, own map[string]*Sym) map[string]*Sym {
+	out := map[string]*Sym{}
+	for k, v := range wrap {
+		if _, bound := own[k]; !bound {
+			out[k] = v
+		}
+	}
+	return out
 }
